@@ -40,6 +40,7 @@ type RunSpec struct {
 	PruneIf       bool              `json:"prune_branches"`
 	ExecBudgetS   int               `json:"exec_budget_s"`
 	Shares        bool              `json:"share_abstraction"`
+	UFFresh       bool              `json:"uf_fresh"` // exp/pow/... as one fresh variable per application site (over-approximation, pure NRA)
 	NoStubs       []string          `json:"no_stubs"` // spec-level stubs that are switched off for this run
 	MaxIters      int               `json:"max_iters"`
 	Replay        string            `json:"replay"`        // "interpreter": confirm models by concrete re-execution in the executor (harnesses whose stubs have no native counterpart)
@@ -438,6 +439,7 @@ func runInstance(ld *sym.Loaded, spec *Spec, rs *RunSpec, args []int64, known ma
 	e := sym.NewExec(ld.Prog, ld.Pkg, mode)
 	e.Known = known
 	e.S.ShareOn = rs.Shares
+	e.UFFresh = rs.UFFresh
 	e.DecSegs = spec.DecSegs
 	e.LockRules = spec.LockRules
 	e.PruneIf = spec.PruneIf || rs.PruneIf
